@@ -42,7 +42,7 @@ SPECS = {
     'rumour': (['S', 'I', 'R'], [], [(('I', 'S'), ('I', 'I'), 'tau'), (('I', 'I'), ('I', 'R'), 'sigma')]),
     'vacc': (['S', 'I', 'R', 'V'], [('S', 'V', 'nu'), ('I', 'R', 'gamma')], [(('I', 'S'), ('I', 'I'), 'tau')]),
 }
-DIGRAPHS_Q = ['D:2:01', 'D:3:01,12', 'D:3:01,10,12', 'D:3:01,12,20']
+DIGRAPHS_Q = ['D:2:01', 'D:3:01,12', 'D:3:01,10,12', 'D:3:01,12,20', 'D:3:01,12,11']      # the last one has a self-loop
 
 
 def _ics(spec, n, tier):
@@ -80,7 +80,7 @@ def configs(tier):
     out = []
     E = 3 if tier == 'quick' else 4
     specs = ['SIS', 'SIR', 'SIRS', 'SEIR', 'compete', 'rumour'] if tier == 'quick' else list(SPECS)
-    ugl = ['K2', 'K2+K1', 'P3', 'K3'] if tier == 'quick' else list(graphs.G3)
+    ugl = (['K2', 'K2+K1', 'P3', 'K3'] if tier == 'quick' else list(graphs.G3)) + ['P3loop']      # P3loop: a self-loop is not a contact
     dgl = DIGRAPHS_Q if tier == 'quick' else list(graphs.digraphs(2)) + list(graphs.digraphs(3))[:16:2] + DIGRAPHS_Q
     for spec in specs:
         for g in ugl + dgl:
@@ -90,7 +90,7 @@ def configs(tier):
                 continue
             for ic in _ics(spec, n, tier):
                 modes = ['plain']
-                if spec in ('SIS', 'SIR') and (g in ('P3', 'K2', 'D:3:01,12') or (tier == 'thorough' and g in ('K3', 'K2+K1', 'D:2:01', 'D:3:01,10,12'))) \
+                if spec in ('SIS', 'SIR') and (g in ('P3', 'K2', 'D:3:01,12', 'P3loop') or (tier == 'thorough' and g in ('K3', 'K2+K1', 'D:2:01', 'D:3:01,10,12'))) \
                         and ic in _ics(spec, n, 'quick'):
                     modes += ['weight_label', 'rate_function']
                 for mode in modes:
